@@ -45,6 +45,10 @@ class _Break(Exception):
     pass
 
 
+class _AttrMissing(AnalysisError):
+    """A class attribute that does not exist (AttributeError at run time)."""
+
+
 class RaisedInReg(Exception):
     def __init__(self, what):
         self.what = what
@@ -119,8 +123,8 @@ class RegExec:
                 return self.obj(k.nested[name])
         if default is not _MISSING:
             return default
-        raise AnalysisError("registration code reads unknown attribute "
-                            "%s.%s" % (o.info.qname, name))
+        raise _AttrMissing("registration code reads unknown attribute "
+                           "%s.%s" % (o.info.qname, name))
 
     def static_attr(self, k, name):
         """Folded static class attribute; mutable containers become a
@@ -269,6 +273,38 @@ class RegExec:
             if s.value is not None:
                 self.assign(s.target, self.ev(s.value, env, owner), env,
                             owner)
+            return
+        if isinstance(s, ast.Try):
+            def catches(h, excname):
+                if h.type is None:
+                    return True
+                names = [unparse(e_).split(".")[-1] for e_ in (
+                    h.type.elts if isinstance(h.type, ast.Tuple)
+                    else [h.type])]
+                return excname in names or "Exception" in names or \
+                    "BaseException" in names
+            try:
+                try:
+                    self.block(s.body, env, owner)
+                except _AttrMissing:
+                    hs = [h for h in s.handlers if catches(h,
+                                                           "AttributeError")]
+                    if not hs:
+                        raise
+                    self.block(hs[0].body, env, owner)
+                except RaisedInReg as ex:
+                    nm = ex.what.split("(")[0].split(":")[0].strip()
+                    hs = [h for h in s.handlers if catches(h, nm)]
+                    if not hs:
+                        raise
+                    if hs[0].name:
+                        env[hs[0].name] = ex.what
+                    self.block(hs[0].body, env, owner)
+                else:
+                    self.block(s.orelse, env, owner)
+            finally:
+                if s.finalbody:
+                    self.block(s.finalbody, env, owner)
             return
         raise AnalysisError("registration code: unsupported statement %s at "
                             "line %s in %s" % (type(s).__name__, s.lineno,
